@@ -41,3 +41,19 @@ Print Assumptions C04_two_executions_are_separated_by_an_invalidation.
 Example C04_shared_node_once :
   In cat_switch_shared_case catalogue_clean /\ ref_invocations cat_switch_shared_case 2 = 1.
 Proof. split; [in_catalogue|vm_compute; reflexivity]. Qed.
+
+(* ---- kind F: ALL plain programs (no switch, no one-of, no body asking for another iteration; any size, shape, settings and
+   collaborators), ALL schedules: a node is executed at most once in a run -- nothing is ever invalidated in a plain run, so by
+   the theorem above two executions of one node cannot both occur. *)
+From MLPE Require Import Proofs.PlainWorld Proofs.PlainLive.
+
+Theorem C04_on_plain_programs_at_most_one_execution_per_node :
+  forall P, plain_prog P ->
+    forall st n l1 l2 l3, reachable P st -> st_trace st <> l1 ++ OProcessed n :: l2 ++ OProcessed n :: l3.
+Proof.
+  intros P HP st n l1 l2 l3 Hr E.
+  pose proof (C04_two_executions_are_separated_by_an_invalidation P st n l1 l2 l3 Hr E) as Hh.
+  assert (Hin : In (OHide n) (st_trace st)) by (rewrite E; apply in_or_app; right; right; apply in_or_app; left; exact Hh).
+  pose proof (plain_prog_values_in_flight P st _ HP Hr Hin) as H. discriminate H.
+Qed.
+Print Assumptions C04_on_plain_programs_at_most_one_execution_per_node.
